@@ -34,13 +34,28 @@ fn tb(b: &Bitstring) -> Tree {
     L(b.bits.iter().map(|x| ab(*x)).collect())
 }
 
-fn draws<E>(n: usize, seed: u64, mut f: impl FnMut(&mut Sm) -> Result<Vec<i64>, E>) -> Tree {
+/// "reported as errors": the error value can be rendered (message, debug form, source chain) and says something
+fn reportable<E: std::error::Error>(e: &E) -> bool {
+    let mut ok = !e.to_string().is_empty() && !format!("{e:?}").is_empty();
+    let mut src = e.source();
+    let mut depth = 0;
+    while let Some(s) = src {
+        ok &= !s.to_string().is_empty();
+        src = s.source();
+        depth += 1;
+        if depth > 64 {
+            return false;
+        }
+    }
+    ok
+}
+fn draws<E: std::error::Error>(n: usize, seed: u64, mut f: impl FnMut(&mut Sm) -> Result<Vec<i64>, E>) -> Tree {
     let mut rng = Sm::new(seed);
     let mut seen: BTreeMap<Vec<i64>, u64> = BTreeMap::new();
     for _ in 0..n {
         match f(&mut rng) {
             Ok(c) => *seen.entry(c).or_insert(0) += 1,
-            Err(_) => return tl![A(1)],
+            Err(e) => return if reportable(&e) { tl![A(1)] } else { tl![A(1), A(-1)] },
         }
     }
     tl![A(0), L(seen.into_iter().map(|(c, k)| tl![tv(&c), a(k)]).collect())]
@@ -117,11 +132,11 @@ fn run(input: &Tree) -> Option<Tree> {
     }
     let (mut x, mut y) = (bits(&pa), bits(&pb));
     let r = match kind {
-        6 => x.crossover_gene(&mut y, l.get(3)?.usize()?).is_ok(),
-        7 => x.crossover_segment(&mut y, l.get(3)?.usize()?..l.get(4)?.usize()?).is_ok(),
+        6 => x.crossover_gene(&mut y, l.get(3)?.usize()?).map_err(|e| reportable(&e)),
+        7 => x.crossover_segment(&mut y, l.get(3)?.usize()?..l.get(4)?.usize()?).map_err(|e| reportable(&e)),
         _ => return None,
     };
-    Some(tl![A(if r { 0 } else { 1 }), tb(&x), tb(&y)])
+    Some(tl![A(match r { Ok(()) => 0, Err(true) => 1, Err(false) => -1 }), tb(&x), tb(&y)])
 }
 
 fn gen(tier: &str, rng: &mut Sm) -> Gen {
